@@ -11,6 +11,7 @@
 
 pub mod app;
 pub mod e2e;
+pub mod mc;
 pub mod sp;
 
 use std::{
@@ -395,6 +396,9 @@ impl Net {
     }
     pub fn cut_direction(&self, src: SocketAddr, dst: SocketAddr) {
         self.inner.lock().cut_dirs.insert((src, dst));
+    }
+    pub fn heal_direction(&self, src: SocketAddr, dst: SocketAddr) {
+        self.inner.lock().cut_dirs.remove(&(src, dst));
     }
     pub fn make_sends_pending(&self, a: SocketAddr, n: u32) {
         if let Some(node) = self.inner.lock().nodes.get_mut(&a) {
